@@ -319,6 +319,71 @@ End Proto.
 Arguments d_cat {cat}. Arguments d_ver_tbl {cat}. Arguments d_vd_tbl {cat}. Arguments d_vers {cat}.
 Arguments r_db {cat}. Arguments r_ok {cat}. Arguments r_log {cat}. Arguments r_os {cat}.
 
+(* ------------------------------------------------------------------ the bootstrap around Update *)
+(* ctrl.Init(config, "qryn") for one configured database = maintenance.InitDB, then UpgradeAll -> upgradeDB -> Update.
+   InitDB: nothing for the database "" / "default"; otherwise CREATE DATABASE IF NOT EXISTS .. [ON CLUSTER] -- whose
+   error is dropped (`err = InitDBTry(..)` is overwritten by the next assignment) -- then SHOW CREATE DATABASE,
+   whose error makes ctrl.Init panic.  upgradeDB refuses ttl_days = 0 before any call.  The database exists on all
+   hosts or on none (a partially completed CREATE DATABASE .. ON CLUSTER is not generated; the fake treats it as
+   not done, like the calls on ver / ver_dist). *)
+Record bcfg := { b_cfg : cfg; b_default : bool; b_ttl0 : bool }.
+Inductive bevent := BCreateDb (r : res) | BShowDb (r : res).
+Definition boot_create (o : outcome) (e : bool) : bool * res :=
+  match o with OOk => (true, ROk) | OAfter => (true, RFAfter) | OBefore => (e, RFBefore) | OPartial _ => (e, RFPartial) end.
+Definition boot_show (o : outcome) (e : bool) : res :=
+  match o with
+  | OOk => if e then ROk else RErr
+  | OAfter => if e then RFAfter else RErr
+  | OBefore => RFBefore
+  | OPartial _ => RFPartial
+  end.
+
+Section Boot.
+  Variables (cat stmt : Type).
+  Variable exec : stmt -> cat -> option cat.
+  Variable pexec : list bool -> stmt -> cat -> cat.
+  Variable scripts : stream -> list stmt.
+
+  Record bdb := { bd_exists : bool; bd_db : db cat }.
+  (* br_ok: ctrl.Init returned nil (no error, no panic); br_boot: the bootstrap calls; br_log: the calls of Update *)
+  Record br := { br_db : bdb; br_ok : bool; br_boot : list bevent; br_log : list event }.
+
+  Definition boot_update (bc : bcfg) (os : list outcome) (d : bdb) (boot : list bevent) : br :=
+    if b_ttl0 bc then {| br_db := d; br_ok := false; br_boot := boot; br_log := [] |}
+    else let r := update cat stmt exec pexec scripts (b_cfg bc) os (bd_db d) in
+         {| br_db := {| bd_exists := bd_exists d; bd_db := r_db r |}; br_ok := r_ok r; br_boot := boot; br_log := r_log r |}.
+
+  Definition init (bc : bcfg) (os : list outcome) (d : bdb) : br :=
+    if b_default bc then boot_update bc os d []
+    else
+      let '(e1, rA) := boot_create (o_hd os) (bd_exists d) in
+      let rB := boot_show (o_hd (tl os)) e1 in
+      let d1 := {| bd_exists := e1; bd_db := bd_db d |} in
+      if res_ok rB then boot_update bc (tl (tl os)) d1 [BCreateDb rA; BShowDb rB]
+      else {| br_db := d1; br_ok := false; br_boot := [BCreateDb rA; BShowDb rB]; br_log := [] |}.
+
+  (* any number of process starts *)
+  Fixpoint init_multi (bc : bcfg) (runs : list (list outcome)) (d : bdb) : bdb * list event :=
+    match runs with
+    | [] => (d, [])
+    | os :: rest =>
+      let r := init bc os d in
+      let '(d', l) := init_multi bc rest (br_db r) in (d', br_log r ++ l)
+    end.
+  (* the outcome lists the Update parts of these starts ran under (a start stopped by the bootstrap has none) *)
+  Fixpoint init_update_runs (bc : bcfg) (runs : list (list outcome)) (e : bool) : list (list outcome) :=
+    match runs with
+    | [] => []
+    | os :: rest =>
+      if b_default bc then (if b_ttl0 bc then [] else [os]) ++ init_update_runs bc rest e
+      else
+        let e1 := fst (boot_create (o_hd os) e) in
+        (if res_ok (boot_show (o_hd (tl os)) e1) && negb (b_ttl0 bc) then [tl (tl os)] else []) ++ init_update_runs bc rest e1
+    end.
+End Boot.
+Arguments bd_exists {cat}. Arguments bd_db {cat}.
+Arguments br_db {cat}. Arguments br_ok {cat}. Arguments br_boot {cat}. Arguments br_log {cat}.
+
 (* ------------------------------------------------------------------ the ClickHouse catalogue (trusted semantics) *)
 Inductive engine := EMergeTree | EReplacing | EAggregating | ENull | EMerge | EDistributed.
 (* RTemplated: the script says {{.MergeTree}} etc., replicated iff CLUST_MODE_CLOUD *)
@@ -835,6 +900,41 @@ Section Obs.
   Definition conc_mismatches (cs : list ccase) : list Z := map cc_id (filter conc_mismatch cs).
   Definition conc_violations (cs : list ccase) : list (Z * N) :=
     map (fun c => (cc_id c, conc_spec_codes c)) (filter (fun c => negb (N.eqb (conc_spec_codes c) 0)) cs).
+
+  (* ---- the bootstrap path as observed (ctrl.Init over the fake TCP server): per start the bootstrap calls, then
+     the calls of Update *)
+  Record brun := { bo_os : list outcome; bo_ok : bool; bo_boot : list bevent; bo_items : list oitem }.
+  Record bcase := { bc_id : Z; bc_cfg : bcfg; bc_nhosts : nat; bc_runs : list brun;
+                    bc_hosts : list cat; bc_ver_tbl : bool; bc_vd_tbl : bool; bc_vers : list (N * N); bc_exists : bool }.
+  Definition bevent_eqb (a b : bevent) : bool :=
+    match a, b with BCreateDb r, BCreateDb r' | BShowDb r, BShowDb r' => res_eqb r r' | _, _ => false end.
+  Definition ch_init (bc : bcfg) :=
+    let c := b_cfg bc in
+    init (ccat cat) (cstmt stmt) (cl_exec cat stmt (exec_ch (cloud c))) (cl_pexec cat stmt (exec_ch (cloud c))) (cl_scripts c) bc.
+  Fixpoint boot_model_runs (bc : bcfg) (rs : list brun) (d : bdb (ccat cat)) : bdb (ccat cat) * bool :=
+    match rs with
+    | [] => (d, true)
+    | r :: rest =>
+      let m := ch_init bc (bo_os r) d in
+      let same := Bool.eqb (br_ok m) (bo_ok r) && list_eqb bevent_eqb (br_boot m) (bo_boot r)
+                  && list_eqb oevent_eqb (map abs_event (br_log m)) (expand (bo_items r)) in
+      let '(d', ok) := boot_model_runs bc rest (br_db m) in (d', same && ok)
+    end.
+  Definition boot_mismatch (c : bcase) : bool :=
+    let '(bd, same) := boot_model_runs (bc_cfg c) (bc_runs c) {| bd_exists := false; bd_db := db0 (ccat cat) (hosts0 (bc_nhosts c)) |} in
+    let d := bd_db bd in
+    negb (same && list_eqb cat_eqb (d_cat d) (bc_hosts c) && Bool.eqb (d_ver_tbl d) (bc_ver_tbl c)
+          && Bool.eqb (d_vd_tbl d) (bc_vd_tbl c) && vers_eqb (vers_list d) (bc_vers c)
+          && (b_default (bc_cfg c) || Bool.eqb (bd_exists bd) (bc_exists c))).
+  (* the property's oracle on a bootstrap case: the Update parts judged as a case of their own (ttl_days = 0 is a
+     configuration error: no start can complete, only the monitor applies) *)
+  Definition boot_as_case (c : bcase) : case :=
+    {| c_id := bc_id c; c_cfg := b_cfg (bc_cfg c); c_nhosts := bc_nhosts c;
+       c_runs := map (fun r => {| or_os := []; or_ok := bo_ok r; or_items := bo_items r |}) (bc_runs c);
+       c_clean := negb (b_ttl0 (bc_cfg c)); c_hosts := bc_hosts c; c_ver_tbl := bc_ver_tbl c; c_vd_tbl := bc_vd_tbl c; c_vers := bc_vers c |}.
+  Definition boot_mismatches (cs : list bcase) : list Z := map bc_id (filter boot_mismatch cs).
+  Definition boot_violations (cs : list bcase) : list (Z * N) :=
+    map (fun c => (bc_id c, spec_code (boot_as_case c))) (filter (fun c => spec_violation (boot_as_case c)) cs).
 
   Definition mismatches (cs : list case) : list Z := map c_id (filter model_mismatch cs).
   Definition spec_violations (cs : list case) : list (Z * N) :=
